@@ -79,7 +79,7 @@ def args_case(version, symbol, maker, nitems, fields=None):
 
 
 INLINE = {'CollationManager.__enter__', 'CollationManager.__exit__', 'CollationManager.contains',
-          'CollationManager.find', 'CollationManager.startswith', 'CollationManager.endswith',
+          'CollationManager.find', 'CollationManager.find_match', 'CollationManager.startswith', 'CollationManager.endswith',
           'unicode_codepoint_strxfrm', 'evaluate__substring_before_or_after_functions',
           'evaluate__substring_functions', 'round_half_up'}
 
@@ -326,6 +326,75 @@ def bounded_strings(tier, seed):
             seen.add(('compare', len(a), len(b)))
             check('compare($a, $b)', (a > b) - (a < b), a=a, b=b)
             check('codepoint-equal($a, $b)', a == b, a=a, b=b)
+    # codepoints-to-string accepts exactly the code points of the XML Char production (FOCH0001 otherwise)
+    def is_xml_char(c):
+        return c in (0x9, 0xA, 0xD) or 0x20 <= c <= 0xD7FF or 0xE000 <= c <= 0xFFFD or 0x10000 <= c <= 0x10FFFF
+    for c in [0, 1, 8, 9, 0xA, 0xB, 0xC, 0xD, 0xE, 0x1F, 0x20, 0x7F, 0x85, 0xD7FF, 0xD800, 0xDBFF, 0xDC00, 0xDFFF, 0xE000, 0xFFFD, 0xFFFE, 0xFFFF, 0x10000, 0x1FFFE, 0x10FFFF,
+              0x110000, -1]:
+        seen.add(('codepoints-to-string', is_xml_char(c)))
+        for version in ('2.0', '3.1'):
+            evals += 1
+            got = eval_native(version, 'codepoints-to-string((97, $c, 98))', c=c)
+            ok = got == ('return', 'a' + chr(c) + 'b') if is_xml_char(c) else (got[0] == 'raise' and str(getattr(got[1], 'code', '')).endswith('FOCH0001'))
+            if not ok:
+                fails.append({'key': f'codepoints-to-string on U+{c:04X}' if c >= 0 else 'codepoints-to-string on -1',
+                              'what': f'XPath {version}: codepoints-to-string((97, {c}, 98)) = {got!r}; ' +
+                              ('a character of the XML Char production' if is_xml_char(c) else 'not an XML character: FOCH0001')})
+    # xs:double to xs:string (F&O 19.1.2.2 / XPath 2.0 17.1.2): decimal notation for 1e-6 <= |v| < 1e6, otherwise scientific notation with a mantissa that has a
+    # fraction part, 'E' and an exponent without sign or leading zeros; the digits are the shortest that identify the double
+    def spec_double_string(v):
+        if v != v:
+            return 'NaN'
+        if v in (math.inf, -math.inf):
+            return 'INF' if v > 0 else '-INF'
+        sign, digits, exponent = decimal.Decimal(repr(v)).as_tuple()
+        digits = list(digits)
+        while len(digits) > 1 and digits[-1] == 0:
+            digits.pop()
+            exponent += 1
+        if digits == [0]:
+            return '-0' if sign else '0'
+        if 1e-6 <= abs(v) < 1e6:
+            t = format(decimal.Decimal(repr(v)), 'f')
+            return t.rstrip('0').rstrip('.') if '.' in t else t
+        return ('-' if sign else '') + str(digits[0]) + '.' + (''.join(map(str, digits[1:])) or '0') + 'E' + str(len(digits) - 1 + exponent)
+    for v in [0.0, -0.0, 1.0, -1.5, 100.0, 0.1, 999999.9, 0.0001, 0.00012345, 0.000001, 0.0000015, 0.00001, 123456.789, 1e6, 1234567.8, 1e15, 123456789012.0, 1e16, 1e21, 1e100, 1.7976931348623157e308,
+              1e-7, 1.5e-7, -1e-10, 5e-324, 0.30000000000000004, math.inf, -math.inf, math.nan]:
+        mag = 'below 1e-6' if 0 < abs(v) < 1e-6 else 'from 1e-6 to 1e-4' if 1e-6 <= abs(v) < 1e-4 else 'from 1e6 up' if 1e6 <= abs(v) < math.inf else \
+            'between 1e-4 and 1e6, zero, INF and NaN'
+        seen.add(('double-string', mag))
+        for expr in ('string($d)', 'concat($d, "")', 'xs:string($d)'):
+            evals += 1
+            got = eval_native('2.0', expr, d=v)
+            if got != ('return', spec_double_string(v)):
+                key = f'xs:double to xs:string, magnitude {mag}'
+                if not any(f['key'] == key for f in fails):
+                    fails.append({'key': key, 'what': f'{expr} with $d = {v!r}: got {got!r}, F&O gives {spec_double_string(v)!r}'})
+    # arguments are atomized: nodes and (3.1) arrays in codepoints-to-string / string-join
+    import xml.etree.ElementTree as _ET
+    from elementpath import select as _sel
+    doc = _ET.XML('<r><c>65</c><c>66</c><s>x</s></r>')
+    for version, expr, want in (('2.0', 'codepoints-to-string(c)', 'AB'), ('3.1', 'codepoints-to-string((c, 67))', 'ABC'), ('2.0', 'codepoints-to-string(s)', 'FORG0001'),
+                                ('3.1', 'codepoints-to-string([65, 66])', 'AB'), ('3.1', "string-join([1, 2, 3], ',')", '1,2,3'), ('3.1', "string-join((['a', 'b'], 'c'), '-')", 'a-b-c'),
+                                ('3.1', "string-join(c, '+')", '65+66'), ('2.0', "string-join(c, '+')", '65+66'), ('3.1', "string-join((c, s, 1), '')", '6566x1'),
+                                ('2.0', 'string-to-codepoints(s)', [120]), ('3.1', "string-join(abs#1, '')", 'FOTY0013')):
+        evals += 1
+        seen.add(('atomized arguments', expr[:24]))
+        got = run_native(lambda: _sel(doc, expr, parser=PARSERS[version]))
+        ok = (got[0] == 'raise' and str(getattr(got[1], 'code', '')).endswith(want)) if isinstance(want, str) and want[:2] == 'FO' else got == ('return', want)
+        if not ok:
+            fails.append({'key': f'arguments are atomized: {expr}', 'what': f'XPath {version}: {expr} on <r><c>65</c><c>66</c><s>x</s></r> = {got!r}; the function conversion rules give {want!r}'})
+    # XPath 3.1: fn:string-join takes xs:anyAtomicType*: every item is cast to xs:string (the same strings as fn:string, concat and ||)
+    for lit, want in (('(1e0, 2.50, true())', '1|2.5|true'), ("(xs:double('INF'), xs:float('-INF'), xs:double('NaN'))", 'INF|-INF|NaN'), ('(1, 1.0, 1.0e0)', '1|1|1'),
+                      ("(xs:untypedAtomic('u'), xs:anyURI('v'), 'w')", 'u|v|w'), ("(xs:date('2000-01-01'), xs:dayTimeDuration('PT60S'))", '2000-01-01|PT1M'),
+                      ('(false(), 0.10, -0.0e0)', 'false|0.1|-0'), ('(1e21, 1.5e-7)', None)):
+        evals += 1
+        seen.add(('string-join atomics', lit[:12]))
+        got = eval_native('3.1', f"string-join({lit}, '|')")
+        ref = eval_native('3.1', f"string-join(for $x in {lit} return string($x), '|')")
+        if got != ref or (want is not None and got != ('return', want)):
+            fails.append({'key': f'string-join of non-string atomic values {lit}', 'what': f"XPath 3.1: string-join({lit}, '|') = {got!r}; the items cast to xs:string give "
+                          f'{want!r} (string() on each item: {ref!r})'})
     for d in ['0', '1', '10', '100', '1000', '-100', '0.5', '100.50', '10.0', '-0.001', '1E+2', '1E+3', '12345678901234567890.5',
               '0.000001', '1000000', '-120', '1.10', '20', '3E+1', '-0', '-0.0', '-0.00', '0.0', '-0E+2', '-0.10']:
         seen.add(('decimal-string', d))
@@ -409,6 +478,11 @@ def xpath10_strings_vs_libxml2(tier, seed):
             'rule': 'distinct = (function, arity, operand classes)'}
 
 
+def _with_default_collation(expr, collation, **variables):
+    tok = PARSERS['3.1'](default_collation=collation).parse(expr)
+    return run_native(lambda: tok.evaluate(XPathContext(root=None, item=1, variables=variables)))
+
+
 def collation_compare(tier, seed):
     """fn:compare / contains / starts-with / ends-with / substring-before / substring-after with the codepoint and the html-ascii-case-insensitive
     collations against their definitions (HTML5: only A-Z and a-z are folded)."""
@@ -441,6 +515,36 @@ def collation_compare(tier, seed):
         chk('ends-with($a, $b)', a.endswith(b), 'ends-with() with the default collation', a=a, b=b)
         chk('starts-with($a, $b)', a.startswith(b), 'starts-with() with the default collation', a=a, b=b)
         chk('contains($a, $b, $c)', b in a, 'contains() with the codepoint collation', a=a, b=b, c=CP)
+        # substring-before / substring-after: the part of the first argument before / after its first match; with a collation whose folding keeps the length,
+        # positions in the folded string are positions in the original
+        for coll, ka, kb, cname in ((CI, fa, fb, 'the html-ascii-case-insensitive collation'), (CP, a, b, 'the codepoint collation')):
+            i = ka.find(kb)
+            before, after = (a[:i], a[i + len(b):]) if i >= 0 else ('', '')
+            chk('substring-before($a, $b, $c)', before, f'substring-before() with {cname}', a=a, b=b, c=coll)
+            chk('substring-after($a, $b, $c)', after, f'substring-after() with {cname}', a=a, b=b, c=coll)
+            if i >= 0:
+                chk('concat(substring-before($a, $b, $c), substring($a, string-length(substring-before($a, $b, $c)) + 1, string-length($b)), substring-after($a, $b, $c))',
+                    a, f'substring-before, the matched part and substring-after do not give back the string with {cname}', a=a, b=b, c=coll)
+        # a collation whose keys change the length of the string (full case folding: sharp s -> ss): the first minimal match in the original string
+        def minimal_match(x, y):
+            ky = y.casefold()
+            for i_ in range(len(x) + 1):
+                for j_ in range(i_, len(x) + 1):
+                    if x[i_:j_].casefold() == ky:
+                        return i_, j_
+            return None
+        mm = minimal_match(a, b)
+        chk('substring-before($a, $b, $c)', a[:mm[0]] if mm else '', 'substring-before() with the caseblind collation (full case folding)', a=a, b=b, c=CB)
+        chk('substring-after($a, $b, $c)', a[mm[1]:] if mm else '', 'substring-after() with the caseblind collation (full case folding)', a=a, b=b, c=CB)
+        # the forms without collation argument use the default collation of the static context (here: declared on the parser)
+        for fname, want in (('contains', fb in fa), ('starts-with', fa.startswith(fb)), ('ends-with', fa.endswith(fb)),
+                            ('substring-before', a[:fa.find(fb)] if fb in fa else ''), ('substring-after', a[fa.find(fb) + len(b):] if fb in fa else ''),
+                            ('compare', (fa > fb) - (fa < fb))):
+            n += 1
+            got = _with_default_collation(f'{fname}($a, $b)', CI, a=a, b=b)
+            if got != ('return', want):
+                fams.setdefault(f'{fname}() without collation argument does not use the default collation of the static context', []).append(
+                    {'expr': f'{fname}($a, $b)', 'vars': repr({'a': a, 'b': b}), 'default_collation': CI, 'got': repr(got)[:80], 'expected': repr(want)})
     fails = [{'key': k, 'items': it[:4], 'count': len(it), 'what': f'{k}: e.g. {it[0]}', 'expr': it[0]['expr']} for k, it in fams.items()]
     return {'evaluations': n, 'distinct': len(seen), 'failures': fails, 'n_failures': len(fails),
             'scope': f'{len(words)}^2 pairs of words (ASCII case variants, sharp s, Kelvin sign, dotted I, characters between Z and a) x compare/contains/starts-with/ends-with '
@@ -449,14 +553,14 @@ def collation_compare(tier, seed):
 
 
 def _replay_c09(f):
-    for fn_ in (xpath10_strings_vs_libxml2, collation_compare):
+    for fn_ in (bounded_strings, xpath10_strings_vs_libxml2, collation_compare):
         r = fn_('quick', 0)
         if any(x['key'] == f.get('key') for x in r['failures']):
             return False
     return True
 
 
-BOUNDED = [Bounded('string_functions_small_scope', bounded_strings), Bounded('xpath10_string_functions_vs_libxml2', xpath10_strings_vs_libxml2, _replay_c09),
+BOUNDED = [Bounded('string_functions_small_scope', bounded_strings, _replay_c09), Bounded('xpath10_string_functions_vs_libxml2', xpath10_strings_vs_libxml2, _replay_c09),
            Bounded('collation_aware_functions', collation_compare, _replay_c09)]
 
 NOT_DECIDED = [
